@@ -47,6 +47,18 @@ def _c06_literals():
         src = 'pub mod a { use super::*; %s\n%s }\npub mod b { use super::*; %s\n%s }\n' % (head % tl, decl, head % 'Hash', decl) + \
             'pub fn run() { let (x, y) = (feed(&a::%s), feed(&b::%s)); println!("@ID@\\tfeed\\t{} {}", x == y, x.len() > 6); }' % (val, val)
         out.append((('#[derive_ex(%s)] ' % tl) + decl, src, [('feed', 'true true')]))
+    # the user's OWN data-carrying types that are merely NAMED like std's marker types: fed like any other field
+    tagged = ('pub mod tagged { use super::*; pub struct PhantomData<T>(pub u8, pub ::core::marker::PhantomData<T>);\n'
+              'impl<T> Hash for PhantomData<T> { fn hash<H: Hasher>(&self, s: &mut H) { s.write_u8(self.0) } }\n'
+              'pub struct PhantomPinned(pub u8); impl Hash for PhantomPinned { fn hash<H: Hasher>(&self, s: &mut H) { s.write_u8(self.0) } } }\n'
+              'pub type Tag<T> = tagged::PhantomData<T>; pub type Pin = tagged::PhantomPinned;\n')
+    vals = '1, tagged::PhantomData(7, ::core::marker::PhantomData), tagged::PhantomPinned(8), 2'
+    for head, text in (('#[::derive_ex::derive_ex(Hash)]', '#[derive_ex(Hash)]'), ('#[derive(::derive_ex::Ex)] #[derive_ex(Hash)]', '#[derive(Ex)] #[derive_ex(Hash)]')):
+        for decl, ctor in (('pub struct X(pub u8, pub %s, pub %s, pub u8);', 'X'), ('pub enum X { A(u8, %s, %s, u8), B }', 'X::A')):
+            da, db = decl % ('tagged::PhantomData<u16>', 'tagged::PhantomPinned'), decl % ('Tag<u16>', 'Pin')
+            src = tagged + 'pub mod a { use super::*; %s\n%s }\npub mod b { use super::*; %s\n%s }\n' % (head, da, head, db) + \
+                'pub fn run() { let (x, y) = (feed(&a::%s(%s)), feed(&b::%s(%s))); println!("@ID@\\tfeed\\t{} {}", x == y, x.contains("u8:7;u8:8;u8:2;")); }' % (ctor, vals, ctor, vals)
+            out.append((text + ' ' + da + '   [tagged::PhantomData<T>(u8, ..) and tagged::PhantomPinned(u8) are the user\'s own types and feed their u8]', src, [('feed', 'true true')]))
     return out
 
 
